@@ -1,4 +1,141 @@
-/- oracle_c13 — placeholder driver (replaced when the C13 model is added). -/
+/-
+  oracle_c13 — line-protocol driver for Model.WalletTx.
+  Byte strings are hex ("-" = empty); lists are comma separated ("_" = empty list); fields of a list
+  element are colon separated; witness stacks use '.' between items and ';' between stacks.
+  Stateful requests:
+    keys <testnet 0|1> <bech32 0|1> <pub,pub,…>          -> ok <n>
+    coins <txid:vout:value:script,…>                      -> ok <n>
+    amt <str>                                             -> ok <v> | err | exit
+    send <send|none> <batchline,…|none> <fee string> <subfee> <useall> <seq> <lock> <ver> <change|none> <msg>
+         <apply2bal> <sig,sig,…>
+        -> exit1 | panic | nosend
+         | ok <file> <txid> <applied> <change> <nin> <txid:vout,… unspent afterwards>
+    raw <ver> <lock> <txid:vout:scriptSig:seq,…> <value:script,…> <none | stack;stack;…>
+        <spent: value:script | none ,…> <ms: none | scriptSig:ok ,…> <sig,sig,…>
+        -> ok <file> <signed 0|1>
+    sel <useall> <need>                                   -> ok <picked idx list> <total>   (selection loop only)
+-/
+import GocoinV.Model.WalletTx
+import GocoinV.Base.Ripemd160
+import GocoinV.Base.Sha256
 import GocoinV.Base.Proto
-open GocoinV
-def main : IO Unit := Proto.serve () (fun _ _ => ((), "bad-op"))
+open GocoinV GocoinV.WalletTx
+
+def H : Addr.Hashes := { sha2sum := sha256d, hash160 := hash160 }
+
+structure St where
+  testnet : Bool := false
+  bech32 : Bool := false
+  ks : List KeyRec := []
+  coins : List Coin := []
+
+def listOf {α} (s : String) (f : String → Option α) : Option (List α) :=
+  if s == "_" then some [] else (s.splitOn ",").mapM f
+
+def coinOf (s : String) : Option Coin :=
+  match s.splitOn ":" with
+  | [t, v, a, sc] => do
+    let t ← Hex.decode t; let v ← v.toNat?; let a ← a.toNat?; let sc ← Hex.decode sc
+    pure { txid := t, vout := v, value := a, script := sc }
+  | _ => none
+
+def inOf (s : String) : Option TxIn :=
+  match s.splitOn ":" with
+  | [t, v, ss, q] => do
+    let t ← Hex.decode t; let v ← v.toNat?; let ss ← Hex.decode ss; let q ← q.toNat?
+    pure { txid := t, vout := v, scriptSig := ss, sequence := q }
+  | _ => none
+
+def outOfS (s : String) : Option TxOut :=
+  match s.splitOn ":" with
+  | [a, sc] => do
+    let a ← a.toNat?; let sc ← Hex.decode sc
+    pure { value := a, script := sc }
+  | _ => none
+
+def optOutOf (s : String) : Option (Option TxOut) :=
+  if s == "none" then some none else (outOfS s).map some
+
+def msOf (s : String) : Option (Option (Bytes × Bool)) :=
+  if s == "none" then some none
+  else match s.splitOn ":" with
+    | [ss, ok] => do
+      let ss ← Hex.decode ss
+      pure (some (ss, ok == "1"))
+    | _ => none
+
+def stackOf (s : String) : Option (List Bytes) :=
+  if s == "_" then some [] else (s.splitOn ".").mapM Hex.decode
+
+def witOf (s : String) : Option (Option (List (List Bytes))) :=
+  if s == "none" then some none
+  else ((s.splitOn ";").mapM stackOf).map some
+
+def optBytes (s : String) : Option (Option Bytes) :=
+  if s == "none" then some none else (Hex.decode s).map some
+
+def flag (s : String) : Option Bool :=
+  if s == "1" then some true else if s == "0" then some false else none
+
+def sigFn (sigs : List Bytes) : Skeleton → SigFn := fun _ i _ => sigs.getD i []
+
+def showOutpoints (l : List (Bytes × Nat)) : String :=
+  if l.isEmpty then "_" else ",".intercalate (l.map fun (t, v) => s!"{Hex.encode t}:{v}")
+
+def step (st : St) (toks : List String) : St × String :=
+  let bad := (st, "bad-op")
+  match toks with
+  | ["keys", tn, b32, pubs] =>
+    match flag tn, flag b32, listOf pubs Hex.decode with
+    | some tn, some b32, some pubs =>
+      ({ st with testnet := tn, bech32 := b32, ks := keyTable H b32 pubs }, s!"ok {pubs.length}")
+    | _, _, _ => bad
+  | ["coins", cs] =>
+    match listOf cs coinOf with
+    | some cs => ({ st with coins := cs }, s!"ok {cs.length}")
+    | none => bad
+  | ["amt", s] =>
+    match Hex.decode s with
+    | some s =>
+      match stringToSatoshis s with
+      | .ok v => (st, s!"ok {v}")
+      | .err => (st, "err")
+      | .exit => (st, "exit")
+    | none => bad
+  | ["sel", ua, need] =>
+    match flag ua, need.toNat? with
+    | some ua, some need =>
+      let s := select st.ks ua need st.coins 0
+      (st, s!"ok {showOutpoints (s.picked.map fun u => (u.txid, u.vout))} {s.total}")
+    | _, _ => bad
+  | ["send", send, batch, fee, subfee, useall, seq, lock, ver, change, msg, a2b, sigs] =>
+    match optBytes send, (if batch == "none" then some none else (listOf batch Hex.decode).map some),
+          (Hex.decode fee).map stringToSatoshis, flag subfee, flag useall, seq.toNat?, lock.toNat?, ver.toNat?, optBytes change,
+          Hex.decode msg, flag a2b, listOf sigs Hex.decode with
+    | some send, some batch, some fee, some subfee, some useall, some seq, some lock, some ver, some change,
+      some msg, some a2b, some sigs =>
+      match fee with
+      | .err | .exit => (st, "exit1")        -- main.go: "Incorrect fee value" / os.Exit(1) inside StringToSatoshis
+      | .ok fee =>
+      let c : Cfg := { testnet := st.testnet, bech32 := st.bech32, fee := fee, subfee := subfee, useAll := useall,
+                       seq := seq, lockTime := lock, version := ver, change := change, msg := msg }
+      match runSend H c st.ks a2b st.coins send batch (sigFn sigs) with
+      | .error .exit1 => (st, "exit1")
+      | .error .panic => (st, "panic")
+      | .ok none => (st, "nosend")
+      | .ok (some w) =>
+        (st, s!"ok {Hex.encode w.file} {Hex.encode w.txid} {Proto.boolStr w.applied} {w.change} {w.tx.ins.length} {showOutpoints w.unspentAfter}")
+    | _, _, _, _, _, _, _, _, _, _, _, _ => bad
+  | ["raw", ver, lock, ins, outs, wit, spent, ms, sigs] =>
+    match ver.toNat?, lock.toNat?, listOf ins inOf, listOf outs outOfS, witOf wit, listOf spent optOutOf,
+          listOf ms msOf, listOf sigs Hex.decode with
+    | some ver, some lock, some ins, some outs, some wit, some spent, some ms, some sigs =>
+      let c : Cfg := { testnet := st.testnet, bech32 := st.bech32, fee := 0, subfee := false, useAll := false,
+                       seq := 0, lockTime := 0, version := 0, change := none, msg := [] }
+      let t : Tx := { version := ver, ins := ins, outs := outs, wit := wit, lockTime := lock }
+      let (t', ok) := runRaw H c st.ks t spent (sigFn sigs) (fun i => (ms.getD i none))
+      (st, s!"ok {Hex.encode (fileBytes t')} {Proto.boolStr ok}")
+    | _, _, _, _, _, _, _, _ => bad
+  | _ => bad
+
+def main : IO Unit := Proto.serve ({} : St) step
